@@ -165,6 +165,14 @@ static void do_close(void)
 	fd = -1;
 }
 
+/* the realloc calls of one open (for `openf`) */
+#define RR_MAX 4096
+static struct { void *oldp, *newp; } rr[RR_MAX]; static size_t nrr;
+static void rr_hook(void *oldp, void *newp, size_t n)
+{
+	if (nrr < RR_MAX) { rr[nrr].oldp = oldp; rr[nrr].newp = newp; ++nrr; }
+}
+
 int main(void)
 {
 	static char line[1 << 20];
@@ -235,6 +243,43 @@ int main(void)
 			st = xc_get_page(&pio);
 			if (st == KDUMP_OK) printf("> gp ok %" PRId64 " %zu\n", (int64_t)last_chunk_pos, last_chunk_len);
 			else printf("> gp %s\n", kstatus_name(st));
+		} else if (sscanf(line, "openf %lu %*s %*s %511s %u", &failat, path, &vbits) == 3) {
+			/* openf <n> <map> <k> <path> <virt_bits>: `open` with the n-th realloc() call of kdump_open_fd failing
+			 * (<map> <k> tell the model which index array that is).  n = 0: nothing fails, and a line
+			 * `# reallocs <labels>` names the array each realloc call of the open grew: P/p ranges/singles of the
+			 * guest-frame index, M/m of the machine-frame index, - anything else */
+			kdump_status st; kdump_attr_t at;
+			do_close();
+			ctx = kdump_new();
+			fd = open(path, O_RDONLY);
+			nrr = 0; alloc_realloc_hook = rr_hook;
+			alloc_realloc_count = 0; alloc_realloc_fail_at = failat;
+			st = kdump_open_fd(ctx, fd);
+			alloc_realloc_fail_at = 0; alloc_realloc_hook = NULL;
+			if (st == KDUMP_OK && !failat) {
+				struct elfdump_priv *edp = ctx->shared->fmtdata;
+				void *cur[4]; char lab[RR_MAX + 1]; size_t i; int t;
+				cur[0] = edp->xen_pfnmap.ranges; cur[1] = edp->xen_pfnmap.singles;
+				cur[2] = edp->xen_mfnmap.ranges; cur[3] = edp->xen_mfnmap.singles;
+				for (i = nrr; i-- > 0; ) {
+					lab[i] = '-';
+					for (t = 0; t < 4; ++t)
+						if (cur[t] && rr[i].newp == cur[t]) { lab[i] = "PpMm"[t]; cur[t] = rr[i].oldp; break; }
+				}
+				lab[nrr] = 0;
+				printf("# reallocs %s\n", lab);
+			}
+			if (st == KDUMP_OK && vbits) {
+				kdump_status s2 = kdump_set_number_attr(ctx, KDUMP_ATTR_XLAT_DEFAULT ".virt_bits", vbits);
+				(void)s2; kdump_clear_err(ctx);
+			}
+			if (st == KDUMP_OK) {
+				if (kdump_get_attr(ctx, KDUMP_ATTR_PAGE_SHIFT, &at) == KDUMP_OK) pshift = at.val.number;
+				if (kdump_get_addrxlat(ctx, &axctx, &axsys) != KDUMP_OK) { axctx = NULL; axsys = NULL; }
+				kdump_clear_err(ctx);
+			}
+			printf("> open %s\n", kstatus_name(st));
+			if (st != KDUMP_OK) { fprintf(stderr, "openf %lu: %s\n", failat, kdump_get_err(ctx)); do_close(); }
 		} else if (sscanf(line, "open %511s %u", path, &vbits) == 2) {
 			kdump_status st; kdump_attr_t at;
 			do_close();
